@@ -11,6 +11,7 @@ import (
 	"fmt"
 	"math/big"
 	"os"
+	"strings"
 	"testing"
 
 	"github.com/kardiachain/go-kardia/lib/common"
@@ -227,13 +228,22 @@ func where(code []byte) string {
 func TestReplay(t *testing.T) {
 	res := mbt.NewResult()
 	defer res.Write()
-	path := os.Getenv("KVM_DUMP")
+	// KVM_DUMP: one dump file, or several separated by commas; a suffix ":v1" marks a dump computed with Galaxias = FALSE
+	for _, item := range strings.Split(os.Getenv("KVM_DUMP"), ",") {
+		specGal := os.Getenv("KVM_GAL") != "0"
+		if strings.HasSuffix(item, ":v1") {
+			item, specGal = strings.TrimSuffix(item, ":v1"), false
+		}
+		replayFile(res, item, specGal)
+	}
+}
+
+func replayFile(res *mbt.Result, path string, specGal bool) {
 	h, err := readHeader(path)
 	if err != nil {
 		res.Mismatch("infra:kvm-dump", err.Error(), nil)
 		return
 	}
-	specGal := os.Getenv("KVM_GAL") != "0"
 	stride := mbt.EnvInt("KVM_STRIDE", 1)
 	sent, err := mbt.EachLine(path, 0, 0, stride, mbt.Seed(), func(n int, raw []byte) {
 		if bytes.HasPrefix(raw, []byte(`{"lib"`)) || bytes.Contains(raw[:min(len(raw), 40)], []byte(`"lib"`)) {
